@@ -209,6 +209,8 @@ class C06(Prop):
                     f.append("support-outside-bounds")
                     break
         elif k == "marginal_sampled":
+            if d.get("rng_unexpected"):
+                return f          # samples drawn in a way the script does not recognise: which samples came up is unknown here
             n = case["n"]
             want = {}
             for r in zip(*case["cols"]):
